@@ -178,8 +178,8 @@ class SPARQLFunction(SHACLFunction):
         new_binds = ctx.ctx.initBindings.copy()
         new_binds.update(ctx.ctx.bindings)
         g = ctx.ctx.graph
-        for i, var in enumerate(e.expr):
-            var_val = ctx[var]
+        # e.expr yields the argument values, already evaluated in ctx (a blank node is a value here, not a label)
+        for i, var_val in enumerate(e.expr):
             bind_name = params[i].localname
             new_binds[bind_name] = var_val
         if self.ask:
